@@ -1168,16 +1168,17 @@ def _connects(c):
     """[(loop var or None, lhs expr, rhs expr, stmt)] for connect()/`//=` statements of construct (top level and for-loops)"""
     out = []
 
-    def scan(stmts, var):
+    def scan(stmts, var, defs):
         for st in stmts:
             if isinstance(st, ast.AugAssign) and isinstance(st.op, ast.FloorDiv):
-                out.append((var, st.target, st.value, st))
+                out.append((var, _expand(st.target, defs), _expand(st.value, defs), st))
             elif isinstance(st, ast.Expr) and isinstance(st.value, ast.Call) and norm(st.value.func) == 'connect' \
                     and len(st.value.args) == 2:
-                out.append((var, st.value.args[0], st.value.args[1], st))
+                out.append((var, _expand(st.value.args[0], defs), _expand(st.value.args[1], defs), st))
             elif isinstance(st, ast.For) and isinstance(st.target, ast.Name):
-                scan(st.body, (st.target.id, st))
-    scan(c.con.body, None)
+                # helper locals of the loop body (`q = s.resp_qs[i]`) stand for their defining expressions
+                scan(st.body, (st.target.id, st), _local_defs(st, {st.target.id}))
+    scan(c.con.body, None, {})
     return out
 
 
@@ -2573,6 +2574,7 @@ MUTANTS = [
         dict(file=STREAM, old="          len_ = int(req.len)\n          if len_ == 0: len_ = req_classes[i].data_nbits >> 3\n", new="          len_ = int(req.len) or full_nbytes[ req.__class__.__name__ ]\n")]),
     dict(name='cl-full-width-of-port-zero', file=CL, rule='R-C18-dispatch', edits=[
         dict(file=CL, old="          if len_ == 0: len_ = req_classes[i].data_nbits >> 3", new="          if len_ == 0: len_ = req_classes[0].data_nbits >> 3")]),
+    _m('stream-wiring-helper-local-fixed-port', STREAM, "      s.req_stalls[i].recv //= s.ifc[i].req\n", "      req_stall = s.req_stalls[0]\n      req_stall.recv //= s.ifc[i].req\n", 'R-C18-pairing'),
     # --- purity / FIFO shape
     _m('deq-pipe-no-copy', DELAY, "    s.pipeline[0] = clone_deepcopy(msg)\n\n  @non_blocking( lambda s: s.pipeline[-1] is not None )", "    s.pipeline[0] = msg\n\n  @non_blocking( lambda s: s.pipeline[-1] is not None )", 'R-C18-purity'),
     _m('deq-pipe-rotates-when-slot0-empty', DELAY, "        if s.pipeline[-1] is None:\n          s.pipeline.rotate()", "        if s.pipeline[0] is None:\n          s.pipeline.rotate()", 'R-C18-purity'),
@@ -2673,6 +2675,8 @@ EQUIV = [
     dict(name='stream-full-width-dict-by-port-index', file=STREAM, edits=[
         dict(file=STREAM, old="    s.mem = MagicMemoryFL( mem_nbytes )\n", new="    s.mem = MagicMemoryFL( mem_nbytes )\n    full_nbytes = { k : T.data_nbits >> 3 for k, T in enumerate( req_classes ) }\n"),
         dict(file=STREAM, old="          len_ = int(req.len)\n          if len_ == 0: len_ = req_classes[i].data_nbits >> 3\n", new="          len_ = int(req.len) or full_nbytes[ i ]\n")]),
+    _m('stream-wiring-helper-locals', STREAM, "      s.req_stalls[i].recv //= s.ifc[i].req\n      # s.req_stalls[i].send //= s.req_qs[i].recv\n      s.resp_qs[i].send    //= s.ifc[i].resp\n\n      s.req_stalls[i].send.rdy //= s.resp_qs[i].recv.rdy\n      s.req_stalls[i].send.val //= s.resp_qs[i].recv.val\n",
+       "      req_stall = s.req_stalls[i]\n      resp_q    = s.resp_qs[i]\n\n      req_stall.recv //= s.ifc[i].req\n      resp_q.send    //= s.ifc[i].resp\n\n      req_stall.send.rdy //= resp_q.recv.rdy\n      req_stall.send.val //= resp_q.recv.val\n"),
     _m('stall-rdy-conjuncts-swapped', STALL, "lambda s: s.stall_rgen.random() > s.stall_prob and s.send.rdy()", "lambda s: s.send.rdy() and s.stall_rgen.random() > s.stall_prob"),
 ]
 
